@@ -1,4 +1,4 @@
 INIT Init
 NEXT Next
-INVARIANTS FloorDiv ModSign DivExact RangeInclusive Trichotomy ConcatIsJuxtaposition NotInIsNegation
+INVARIANTS FloorDiv ModSign DivExact RangeInclusive RangeDescending Trichotomy ConcatIsJuxtaposition NotInIsNegation
   AddSubInverse MulCommutes PowIsRepeatedMul NumStrNum CallLogInSourceOrder
